@@ -659,6 +659,9 @@ func (obj *SparseInt8Matrix) UnmarshalJSON(data []byte) error {
   if r.Rows < 0 || r.Cols < 0 {
     return fmt.Errorf("invalid sparse matrix: negative dimension")
   }
+  if r.Cols != 0 && (r.Rows*r.Cols)/r.Cols != r.Rows {
+    return fmt.Errorf("invalid sparse matrix: dimension %dx%d is too large", r.Rows, r.Cols)
+  }
   if err := checkSparseIndices(r.Index, r.Rows*r.Cols); err != nil {
     return err
   }
